@@ -7,6 +7,6 @@ let run (kind : string) (args : Sexp.t list) : Sexp.t =
   match kind, args with
   | "wffn", [A ins; A nconst; A nlocals; A nmods; L (A "cf" :: cfs)] ->
     let ctx = { num_constants = z_of_string nconst; num_locals = z_of_string nlocals; num_modules = z_of_string nmods;
-                cfun_constants = List.map (function A i -> z_of_string i | _ -> failwith "cf") cfs } in
+                cfun_constants = List.map (function L [A i; A need] -> (z_of_string i, z_of_string need) | _ -> failwith "cf") cfs } in
     L [A "b"; A (if wf_function ctx (C11.zlist_of_atom ins) then "1" else "0")]
   | _ -> failwith "c05: bad case"
